@@ -131,6 +131,9 @@ struct Flt {
 }
 
 fn load(vectors: &str) -> Vec<Flt> {
+    if let Some(p) = read_tagged(vectors, "PAUSES").first() {
+        let _ = PAUSES.set(p["ms"].as_array().unwrap().iter().map(|x| x.as_u64().unwrap()).collect());
+    }
     let mut bases: BTreeMap<String, Hello> = BTreeMap::new();
     let mut out = Vec::new();
     for f in read_tagged(vectors, "FLT") {
@@ -267,6 +270,11 @@ fn events_now() -> Vec<Value> {
 /// Send `flight` in `segs` over loopback to the real prebuffer loop. In lock-step mode each
 /// segment is sent only after the loop has consumed the previous one (or has finished).
 async fn run_peek(flight: &[u8], segs: &[usize], close: bool, lockstep: bool) -> Result<PeekObs, String> {
+    run_peek_paused(flight, segs, close, lockstep, Duration::ZERO).await
+}
+
+/// `pause`: the next segment is late by this much (Hello.tla: a pause between two Sends is a stuttering step)
+async fn run_peek_paused(flight: &[u8], segs: &[usize], close: bool, lockstep: bool, pause: Duration) -> Result<PeekObs, String> {
     let listener = TcpListener::bind("127.0.0.1:0").await.map_err(|e| e.to_string())?;
     let addr = listener.local_addr().unwrap();
     let total = flight.len();
@@ -342,6 +350,9 @@ async fn run_peek(flight: &[u8], segs: &[usize], close: bool, lockstep: bool) ->
                 }
                 tokio::time::sleep(Duration::from_millis(1)).await;
             }
+            if !pause.is_zero() && !peek_done && pos < total {
+                tokio::time::sleep(pause).await;
+            }
         }
     }
     if close {
@@ -413,6 +424,8 @@ fn judge(rep: &mut Report, f: &Flt, segs: &[usize], mode: &str, obs: &Result<Pee
     ok
 }
 
+static PAUSES: std::sync::OnceLock<Vec<u64>> = std::sync::OnceLock::new();
+
 fn socket_scenarios(rep: &mut Report, flights: &[Flt], thorough: bool, trace_out: Option<String>) {
     let rt = tokio::runtime::Builder::new_current_thread().enable_all().build().unwrap();
     let mut trace: Vec<String> = Vec::new();
@@ -449,6 +462,22 @@ fn socket_scenarios(rep: &mut Report, flights: &[Flt], thorough: bool, trace_out
                     if let Ok(o) = &obs {
                         rep.sample(json!({"flight": f.name, "total": f.total, "segs": segs, "mode": mode, "random": o.random.as_ref().map(|r| hex(r)), "prebuffer": o.pre}));
                     }
+                }
+            }
+        }
+        // (b') arrival times: the one-cut scenarios whose cut lies before the end of the first record, with the
+        // second segment late by each of the specification's pauses: the same outcome set applies
+        if let Some(pauses) = PAUSES.get() {
+            let late: Vec<&Vec<usize>> = f.segs.iter().filter(|s| s.len() == 2 && s[0] < f.threshold.min(f.total)).collect();
+            for (pi, ms) in pauses.iter().enumerate() {
+                // the long pause on a few flights only (run time)
+                let take = if *ms > 1000 { if thorough { 2 } else if f.name == "min" || f.name.starts_with("chrome") { 1 } else { 0 } } else if thorough { 4 } else { 1 };
+                for segs in late.iter().skip(pi).step_by(3).take(take) {
+                    rep.eval();
+                    rep.count("paused_scenarios", 1);
+                    let obs = rt.block_on(run_peek_paused(&f.bytes, segs, f.close, true, Duration::from_millis(*ms)));
+                    judge(rep, f, segs, &format!("late{}", ms), &obs, f.outcomes.get(*segs));
+                    rep.nontrivial(format!("{}|{:?}|late{}", f.name, segs, ms));
                 }
             }
         }
